@@ -35,7 +35,7 @@ C2S_EVENT_CH = {"CE0": 1, "CEM": 2, "CT": 3}
 
 
 def gen_script(rng, nclients=None, policy=None, track=None, auth=None, length=None, periodic=False,
-               late_join=True, sessions=False, weights=None, max_size=None, events=False, rel=False, burst=0.0, rel_heavy=False):
+               late_join=True, sessions=False, weights=None, max_size=None, events=False, rel=False, burst=0.0, rel_heavy=False, timeout=None, quiet_tail=0.0):
     w = dict(sop=5.0, sframe=3.0, cframe=2.5, deliver=4.0, drop=0.6, session=0.25 if sessions else 0.0,
              sev=2.0 if events else 0.0, cev=1.2 if events else 0.0, edeliver=3.0 if events else 0.0)
     if weights:
@@ -50,7 +50,8 @@ def gen_script(rng, nclients=None, policy=None, track=None, auth=None, length=No
     c2s_ch = {k: v + (1 if proto else 0) for k, v in C2S_EVENT_CH.items()}
     length = length or rng.choice([25, 40, 60, 90])
     kinds = [0, 1, 2, 3] + ([4] if periodic else [])
-    lines = ["cfg policy=%s auth=%s track=%d nclients=%d timeout=10000%s%s" % (policy, auth, int(track), nclients, " rel=1" if rel else "",
+    timeout = timeout or 10000
+    lines = ["cfg policy=%s auth=%s track=%d nclients=%d timeout=%d%s%s" % (policy, auth, int(track), nclients, timeout, " rel=1" if rel else "",
                                                                                  " mismatch=%d" % mismatch if mismatch is not None else ""),
              "start", "sframe 0 10"]
     wd = World()
@@ -333,6 +334,35 @@ def gen_script(rng, nclients=None, policy=None, track=None, auth=None, length=No
         if late_join and running and len(connected) < nclients and rng.random() < 0.04:
             free = [c for c in range(nclients) if c not in connected]
             connect(rng.choice(free))
+    if quiet_tail and running and connected and rng.random() < quiet_tail:
+        # the session ends with rounds of multi-entity mutations whose mutate messages are delivered only in part and in a
+        # different order, acknowledgements flowing back, and then NOTHING changes any more: what was lost must still be re-sent
+        cands = [e for e, st in wd.alive.items() if st["marker"] and (st["comps"] & {0, 1})]
+        if len(cands) >= 2:
+            for rnd in range(rng.choice([2, 3, 4])):
+                for e in rng.sample(cands, min(len(cands), rng.choice([2, 3, 4]))):
+                    k = rng.choice(sorted(wd.alive[e]["comps"] & {0, 1}))
+                    lines.append("sop mutate %d %d=%d" % (e, k, rng.randrange(200, 300)))
+                lines.append("sframe 1 %d" % rng.choice([16, 16, 30, 50]))
+                for c in sorted(connected):
+                    lines.append("deliver %d s2c 0 all" % c)
+                    last_round = rnd >= 1 and rng.random() < 0.6
+                    for _ in range(rng.choice([1, 1, 2])):
+                        lines.append("%s %d s2c 1 %s" % (rng.choice(["deliver", "drop"]) if last_round else "deliver", c, rng.choice(["first", "last"])))
+                        if rng.random() < 0.5:
+                            lines.append("cframe %d" % c)
+                    if last_round:
+                        lines.append("drop %d s2c 1 all" % c)
+                    elif rng.random() < 0.7:
+                        lines.append("deliver %d s2c 1 all" % c)
+                    lines.append("cframe %d" % c)
+                    if rng.random() < 0.85:
+                        lines.append("deliver %d c2s 0 all" % c)
+            for _ in range(rng.randrange(1, 4)):
+                lines.append("sframe 1 %d" % rng.choice([16, 30, 50]))
+                for c in sorted(connected):
+                    if rng.random() < 0.5:
+                        lines.append("deliver %d c2s 0 all" % c)
     return lines, dict(nclients=nclients, policy=policy, track=track, auth=auth, events=events, proto=proto, mismatch=mismatch, connected=sorted(connected),
                        authorized=sorted(c for c in connected if connected[c]["authorized"]))
 
